@@ -329,6 +329,15 @@ impl Interp {
             chess_move_of(m)
         };
         let before = if w.undo { Some(snapshot(&self.board)) } else { None };
+        // repetition bookkeeping is only observable through what a registration reports:
+        // register + unregister the current position (net effect none) and remember the count
+        let count_before = if w.undo && w.register {
+            let c = self.board.count_current_position();
+            self.board.uncount_current_position();
+            Some(c)
+        } else {
+            None
+        };
         let turn_before = self.board.turn();
         if let Err(e) = em.apply(&mut self.board) {
             return Err(fail(
@@ -412,7 +421,8 @@ impl Interp {
             reg = self.board.count_current_position();
         }
         let prev = std::mem::replace(&mut self.cur, next);
-        self.stack.push((prev, em, before, reg));
+        let _ = count_before;
+        self.stack.push((prev, em, before, count_before.unwrap_or(reg.wrapping_mul(0))));
         self.max_depth = self.max_depth.max(self.stack.len());
         if self.cur.ply == 255 || self.cur.ply == 256 {
             self.note("ply-255/256");
@@ -421,7 +431,7 @@ impl Interp {
     }
 
     pub fn do_undo(&mut self) -> TestResult {
-        let (prev, em, before, _reg) = match self.stack.pop() {
+        let (prev, em, before, count_before) = match self.stack.pop() {
             Some(x) => x,
             None => return Ok(()),
         };
@@ -435,6 +445,22 @@ impl Interp {
         }
         self.cur = prev;
         self.note("undo");
+        if before.is_some() && self.which.register {
+            let c = self.board.count_current_position();
+            self.board.uncount_current_position();
+            if c != count_before {
+                return Err(fail(
+                    format!(
+                        "undo({}) did not restore the repetition bookkeeping: registering the position reported {} before the move and {} after the undo",
+                        mv_text(&m),
+                        count_before,
+                        c
+                    ),
+                    &self.cur,
+                    json!({"move": mv_text(&m), "depth": self.stack.len()}),
+                ));
+            }
+        }
         if let Some(before) = before {
             let after = snapshot(&self.board);
             if let Some(d) = snapshot_diff(&before, &after) {
